@@ -1,0 +1,37 @@
+//! Verification hooks, compiled only with the `verif-hooks` cargo feature.
+//!
+//! Re-exports of crate-private items that an out-of-tree verification harness drives
+//! in-process, plus a global synchronisation callback invoked at a few named points of a dump.
+//! Nothing here changes behaviour unless a callback is installed.
+
+pub use crate::linux::auxv::{AuxvDumpInfo, AuxvError, AuxvPair};
+pub use crate::linux::dso_debug::write_dso_debug_stream;
+pub use crate::linux::dumper_cpu_info::{os_information, write_cpu_information};
+pub use crate::linux::sections::{
+    app_memory, exception_stream, handle_data_stream, mappings, memory_info_list_stream,
+    memory_list_stream, systeminfo_stream, thread_list_stream, thread_names_stream,
+};
+
+use std::sync::Mutex;
+
+type SyncFn = Box<dyn Fn(&'static str, i32) + Send + 'static>;
+
+static SYNC: Mutex<Option<SyncFn>> = Mutex::new(None);
+
+/// Installs (or removes) the callback invoked at the named sync points.
+pub fn set_sync(cb: Option<SyncFn>) {
+    *SYNC.lock().unwrap_or_else(|e| e.into_inner()) = cb;
+}
+
+/// Invoked by the crate at: `dump_start`, `threads_enumerated`, `before_attach(tid)`,
+/// `threads_suspended`, `before_resume`, `after_resume`.
+pub fn sync(point: &'static str, tid: i32) {
+    if let Some(cb) = SYNC.lock().unwrap_or_else(|e| e.into_inner()).as_ref() {
+        cb(point, tid);
+    }
+}
+
+/// `AuxvDumpInfo` from caller-supplied values (the crate-private `From` impl).
+pub fn auxv_from_direct(d: crate::linux::minidump_writer::DirectAuxvDumpInfo) -> AuxvDumpInfo {
+    AuxvDumpInfo::from(d)
+}
